@@ -112,7 +112,17 @@ func factsImpl(repo, out, js string) {
 	if run == nil {
 		fail("(*Kustomizer).Run not found")
 	}
-	res := rta.Analyze([]*ssa.Function{run}, true)
+	// roots: Run, and the package initialisers of every kustomize package in its import closure — the builtin plugins are
+	// reached through factory tables that are filled by package-level initialisers, which RTA only sees from `init`
+	roots := []*ssa.Function{run}
+	for _, p := range prog.AllPackages() {
+		if p != nil && strings.HasPrefix(p.Pkg.Path(), kpfx) {
+			if fi := p.Func("init"); fi != nil {
+				roots = append(roots, fi)
+			}
+		}
+	}
+	res := rta.Analyze(roots, true)
 	var fns []*ssa.Function
 	for f := range res.Reachable {
 		if inKustomize(f) {
